@@ -34,6 +34,7 @@ pub const ALPHA_MID: &[char] = &['a', 'n', 'i', 'u', '1', '8', '_', '"', '\\', '
 /// multi-line strings need `\\`, newline, indentation, content
 pub const ALPHA_ML: &[char] = &['\\', '\n', ' ', 'a', 'é', '"', '/'];
 pub const ALPHA_ML2: &[char] = &['\\', '\n', ' ', '😀'];
+pub const ALPHA_ML3: &[char] = &['\\', '\n', 'é', 'a', ' '];
 
 fn hex(bytes: &[u8], out: &mut String) {
     const H: &[u8; 16] = b"0123456789abcdef";
@@ -220,6 +221,39 @@ pub fn run_case(input: &str, with_tree: bool) -> CaseOut {
         if u32::from(r.end()) > len || !input.is_char_boundary(u32::from(r.start()) as usize) || !input.is_char_boundary(u32::from(r.end()) as usize) {
             out.failures.push(("node-range-outside-text".into(), format!("{:?} range {:?}, text 0..{}", el.kind(), r, len)));
             break;
+        }
+    }
+    // leaves of the tree are the lexer's tokens, in order, with the kind of the same name
+    // (`TokenKind as u16` is reinterpreted as `MySyntaxKind`)
+    {
+        let mut it = toks.iter();
+        let mut n_leaves = 0usize;
+        let mut bad: Option<String> = None;
+        for el in root.descendants_with_tokens() {
+            if let NodeOrToken::Token(t) = el {
+                n_leaves += 1;
+                match it.next() {
+                    None => {
+                        bad = Some(format!("leaf {} has no lexer token", n_leaves - 1));
+                        break;
+                    }
+                    Some(lt) => {
+                        if format!("{:?}", t.kind()) != format!("{:?}", lt.kind) || t.text() != lt.text || t.text_range() != lt.range {
+                            bad = Some(format!(
+                                "leaf {}: tree has {:?} {:?} at {:?}, lexer produced {:?} {:?} at {:?}",
+                                n_leaves - 1, t.kind(), t.text(), t.text_range(), lt.kind, lt.text, lt.range
+                            ));
+                            break;
+                        }
+                    }
+                }
+            }
+        }
+        if bad.is_none() && n_leaves != toks.len() {
+            bad = Some(format!("tree has {} leaves, lexer produced {} tokens", n_leaves, toks.len()));
+        }
+        if let Some(b) = bad {
+            out.failures.push(("tree-leaves-differ-from-tokens".into(), b));
         }
     }
     for (m, r) in &diags {
@@ -533,11 +567,13 @@ pub fn build_jobs(args: &util::Args) -> Vec<Job> {
         enumerate(ALPHA_MID, 5, "exhaustive-mid", 0, &mut seen, &mut jobs);
         enumerate(ALPHA_ML, 7, "exhaustive-multiline", 5, &mut seen, &mut jobs);
         enumerate(ALPHA_ML2, 9, "exhaustive-multiline2", 6, &mut seen, &mut jobs);
+        enumerate(ALPHA_ML3, 8, "exhaustive-multiline3", 0, &mut seen, &mut jobs);
     } else {
         enumerate(ALPHA_FULL, 3, "exhaustive-full", 3, &mut seen, &mut jobs);
         enumerate(ALPHA_MID, 4, "exhaustive-mid", 0, &mut seen, &mut jobs);
         enumerate(ALPHA_ML, 6, "exhaustive-multiline", 4, &mut seen, &mut jobs);
         enumerate(ALPHA_ML2, 8, "exhaustive-multiline2", 5, &mut seen, &mut jobs);
+        enumerate(ALPHA_ML3, 7, "exhaustive-multiline3", 0, &mut seen, &mut jobs);
     }
     // corpus
     let corpus = corpus_files();
